@@ -25,6 +25,7 @@ fn main() {
                 Some(14) => gate::run_case(&rt, &base, &c[1..]),
                 Some(1) => world.get_or_insert_with(e2e::World::new).run_case(&c[1..]),
                 Some(18) if c.get(1) == Some(&7) => socksd.get_or_insert_with(socksd::Socksd::new).run_case(&c[2..]),
+                Some(18) if c.get(1) == Some(&8) => socksd.get_or_insert_with(socksd::Socksd::new).run_connect(&c[2..]),
                 Some(17) => tls_ctx.get_or_insert_with(tlsm::Ctx::new).run_case(&c[1..]),
                 Some(19) if c.get(1) == Some(&1) => backoff::run_case(&c[2..]),
                 Some(19) if c.get(1) == Some(&2) => reconnect::run_case(&c[2..]),
